@@ -179,6 +179,22 @@ def e2_drain(ctx, rep):
             # the payload (or a closure capturing it) comes from the taken effect's variant fields
             src = [st for st in subterms(pl) if st[0] == "vfield" and st[1] == item and st[2] == v]
             payload_ok = bool(src)
+        if good and payload_ok and v != "Action":
+            # a payload wrapped in a closure of the store's own (`move || { let _ = func(); }`):
+            # that closure calls the captured payload exactly once on every path - `drop(func)`
+            # instead of `func()` hands over a job that does nothing
+            for c_ in [st for st in subterms(pl) if st[0] == "agg" and st[1].startswith("closure:")]:
+                caps = [i for i, part in enumerate(c_[2]) if any(st == x for x in subterms(part) for st in src)]
+                cb_ = ctx.prog.by_path.get(c_[1][8:])
+                if cb_ is None or not caps:
+                    continue
+                rep.note_fn(cb_.path)
+                for p2 in ctx.paths(cb_).paths:
+                    if p2.end != "return":
+                        continue
+                    runs = [e for e in p2.calls() if e.ck in ("std::ops::FnOnce::call_once", "std::ops::FnMut::call_mut", "std::ops::Fn::call") and e.args and strip_wrap(e.args[0])[0] == "upvar" and strip_wrap(e.args[0])[1] in caps]
+                    rep.check(len(runs) == 1, R, "wrapped-payload-called-once:%s:%s" % (v, short(cb_.path)), ctx.where(cb_), "path [%s] of the wrapping job calls the effect's payload once" % p2.describe(),
+                              "path [%s] of the job the store wraps around Effect::%s calls the payload %d time(s)" % (p2.describe(), v, len(runs)))
         rep.check(good and payload_ok, R, "variant-handed-over-once:%s:%s" % (v, fn), ctx.where(body, hand[0].bb) if hand else ctx.where(body),
                   "Effect::%s: one hand-over of its payload (%s)" % (v, hand[0].ck.split("::")[-1] if hand else ""), "Effect::%s: %d hand-over call(s), payload from the effect: %s" % (v, len(hand), payload_ok))
     for v in variants:
